@@ -59,7 +59,7 @@
    interned names: 0=productionTask, 1=mutated, 2=Mutated, 3=Data, 4=count, 5=flag, 6=ratio, 7=label, 8=items, 9=Item, 10=inner, 11=Inner, 12=n, 13=ok, 14=v, 15=S1, 16=d, 17=t1, 18=t2, 19=i, 20=S2, 21=S3, 22=j, 23=S4, 24=p0, 25=S5, 26=S6, 27=S7, 28='x *)
 From PFDL Require Import RunCase Monitors.
 
-Definition ex_case : runcase := {| rc_prog := {| p_structs := [{| s_name := 3; s_attrs := [(4, (TPlain TNumber)); (5, (TPlain TBoolean)); (6, (TPlain TNumber)); (7, (TPlain TString)); (8, (TArray (TStructName 9) LenNone)); (10, (TPlain (TStructName 11)))] |}; {| s_name := 11; s_attrs := [(12, (TPlain TNumber)); (13, (TPlain TBoolean))] |}; {| s_name := 9; s_attrs := [(14, (TPlain TNumber))] |}]; p_tasks := [{| t_name := 0; t_ins := []; t_body := [(SService 15 [] [(16, (TPlain (TStructName 3)))]); (SParallel [{| c_name := 17; c_ins := [(PVar 16)]; c_outs := [] |}; {| c_name := 18; c_ins := []; c_outs := [] |}]); (SCount false 19 (LimPath 16 [PF 4]) [(SService 20 [(PPath 16 [PF 8; PIdxVar 19])] [])]); (SCond (EBin OLt (EPath 16 [PF 6]) (ENum (Qmake (1)%Z 1%positive))) [(SService 21 [] [])] []); (SCount true 22 (LimInt 2) [(SCall {| c_name := 18; c_ins := []; c_outs := [] |})]); (SWhile (EPath 16 [PF 5]) [(SService 23 [] [])])]; t_outs := [] |}; {| t_name := 17; t_ins := [(24, (TPlain (TStructName 3)))]; t_body := [(SService 25 [(PVar 24)] []); (SService 26 [] [])]; t_outs := [] |}; {| t_name := 18; t_ins := []; t_body := [(SService 27 [] [])]; t_outs := [] |}] |}; rc_vals := [(VStruct [(4, (VNum (Qmake (2)%Z 1%positive))); (5, (VBool true)); (6, (VNum (Qmake (1)%Z 2%positive))); (7, (VStr 28)); (12, (VNum (Qmake (0)%Z 1%positive))); (13, (VBool true)); (14, (VNum (Qmake (-1)%Z 1%positive))); (10, (VStruct [(12, (VNum (Qmake (-1)%Z 1%positive))); (13, (VBool false))]))]); (VStruct [(4, (VNum (Qmake (2)%Z 1%positive))); (5, (VBool true)); (6, (VNum (Qmake (1)%Z 2%positive))); (7, (VStr 28)); (12, (VNum (Qmake (0)%Z 1%positive))); (13, (VBool true)); (14, (VNum (Qmake (-1)%Z 1%positive))); (10, (VStruct [(12, (VNum (Qmake (-1)%Z 1%positive))); (13, (VBool false))]))]); (VStruct [(4, (VNum (Qmake (2)%Z 1%positive))); (5, (VBool true)); (6, (VNum (Qmake (1)%Z 2%positive))); (7, (VStr 28)); (12, (VNum (Qmake (0)%Z 1%positive))); (13, (VBool true)); (14, (VNum (Qmake (-1)%Z 1%positive))); (10, (VStruct [(12, (VNum (Qmake (-1)%Z 1%positive))); (13, (VBool false))]))]); (VStruct [(4, (VNum (Qmake (2)%Z 1%positive))); (5, (VBool true)); (6, (VNum (Qmake (1)%Z 2%positive))); (7, (VStr 28)); (12, (VNum (Qmake (0)%Z 1%positive))); (13, (VBool true)); (14, (VNum (Qmake (-1)%Z 1%positive))); (10, (VStruct [(12, (VNum (Qmake (-1)%Z 1%positive))); (13, (VBool false))]))]); (VStruct [(4, (VNum (Qmake (2)%Z 1%positive))); (5, (VBool true)); (6, (VNum (Qmake (1)%Z 2%positive))); (7, (VStr 28)); (12, (VNum (Qmake (0)%Z 1%positive))); (13, (VBool true)); (14, (VNum (Qmake (-1)%Z 1%positive))); (10, (VStruct [(12, (VNum (Qmake (-1)%Z 1%positive))); (13, (VBool false))]))]); (VStruct [(4, (VNum (Qmake (2)%Z 1%positive))); (5, (VBool true)); (6, (VNum (Qmake (1)%Z 2%positive))); (7, (VStr 28)); (12, (VNum (Qmake (0)%Z 1%positive))); (13, (VBool true)); (14, (VNum (Qmake (-1)%Z 1%positive))); (10, (VStruct [(12, (VNum (Qmake (-1)%Z 1%positive))); (13, (VBool false))]))]); (VStruct [(4, (VNum (Qmake (0)%Z 1%positive))); (5, (VBool false)); (6, (VNum (Qmake (0)%Z 1%positive))); (7, (VStr 28)); (12, (VNum (Qmake (0)%Z 1%positive))); (13, (VBool false)); (14, (VNum (Qmake (0)%Z 1%positive))); (10, (VStruct [(12, (VNum (Qmake (0)%Z 1%positive))); (13, (VBool false))]))])]; rc_imm := [false; false; true; false; false; false; false; false; false; false; false; false; false; false; false; false; false; false; false; false; false; false; false]; rc_script := [(AFinish 0); AStart; (AFinish 0); (AFinish 1); (AFinish 3); (AFinish 4); (AFinish 3); (AFinish 5); (AFinish 6); (AFinish 4); (AFinish 7); (AFinish 8); AJunk; (AFinish 9); (AFinish 10); (AFinish 7)]; rc_react := []; rc_mutate := 0; rc_test_ids := true |}.
+Definition ex_case : runcase := {| rc_prog := {| p_structs := [{| s_name := 3; s_attrs := [(4, (TPlain TNumber)); (5, (TPlain TBoolean)); (6, (TPlain TNumber)); (7, (TPlain TString)); (8, (TArray (TStructName 9) LenNone)); (10, (TPlain (TStructName 11)))] |}; {| s_name := 11; s_attrs := [(12, (TPlain TNumber)); (13, (TPlain TBoolean))] |}; {| s_name := 9; s_attrs := [(14, (TPlain TNumber))] |}]; p_tasks := [{| t_name := 0; t_ins := []; t_body := [(SService 15 [] [(16, (TPlain (TStructName 3)))]); (SParallel [{| c_name := 17; c_ins := [(PVar 16)]; c_outs := [] |}; {| c_name := 18; c_ins := []; c_outs := [] |}]); (SCount false 19 (LimPath 16 [PF 4]) [(SService 20 [(PPath 16 [PF 8; PIdxVar 19])] [])]); (SCond (EBin OLt (EPath 16 [PF 6]) (ENum (Qmake (1)%Z 1%positive))) [(SService 21 [] [])] []); (SCount true 22 (LimInt 2) [(SCall {| c_name := 18; c_ins := []; c_outs := [] |})]); (SWhile (EPath 16 [PF 5]) [(SService 23 [] [])])]; t_outs := [] |}; {| t_name := 17; t_ins := [(24, (TPlain (TStructName 3)))]; t_body := [(SService 25 [(PVar 24)] []); (SService 26 [] [])]; t_outs := [] |}; {| t_name := 18; t_ins := []; t_body := [(SService 27 [] [])]; t_outs := [] |}] |}; rc_vals := [(VStruct [(4, (VNum (Qmake (2)%Z 1%positive))); (5, (VBool true)); (6, (VNum (Qmake (1)%Z 2%positive))); (7, (VStr 28)); (12, (VNum (Qmake (0)%Z 1%positive))); (13, (VBool true)); (14, (VNum (Qmake (-1)%Z 1%positive))); (10, (VStruct [(12, (VNum (Qmake (-1)%Z 1%positive))); (13, (VBool false))]))]); (VStruct [(4, (VNum (Qmake (2)%Z 1%positive))); (5, (VBool true)); (6, (VNum (Qmake (1)%Z 2%positive))); (7, (VStr 28)); (12, (VNum (Qmake (0)%Z 1%positive))); (13, (VBool true)); (14, (VNum (Qmake (-1)%Z 1%positive))); (10, (VStruct [(12, (VNum (Qmake (-1)%Z 1%positive))); (13, (VBool false))]))]); (VStruct [(4, (VNum (Qmake (2)%Z 1%positive))); (5, (VBool true)); (6, (VNum (Qmake (1)%Z 2%positive))); (7, (VStr 28)); (12, (VNum (Qmake (0)%Z 1%positive))); (13, (VBool true)); (14, (VNum (Qmake (-1)%Z 1%positive))); (10, (VStruct [(12, (VNum (Qmake (-1)%Z 1%positive))); (13, (VBool false))]))]); (VStruct [(4, (VNum (Qmake (2)%Z 1%positive))); (5, (VBool true)); (6, (VNum (Qmake (1)%Z 2%positive))); (7, (VStr 28)); (12, (VNum (Qmake (0)%Z 1%positive))); (13, (VBool true)); (14, (VNum (Qmake (-1)%Z 1%positive))); (10, (VStruct [(12, (VNum (Qmake (-1)%Z 1%positive))); (13, (VBool false))]))]); (VStruct [(4, (VNum (Qmake (2)%Z 1%positive))); (5, (VBool true)); (6, (VNum (Qmake (1)%Z 2%positive))); (7, (VStr 28)); (12, (VNum (Qmake (0)%Z 1%positive))); (13, (VBool true)); (14, (VNum (Qmake (-1)%Z 1%positive))); (10, (VStruct [(12, (VNum (Qmake (-1)%Z 1%positive))); (13, (VBool false))]))]); (VStruct [(4, (VNum (Qmake (2)%Z 1%positive))); (5, (VBool true)); (6, (VNum (Qmake (1)%Z 2%positive))); (7, (VStr 28)); (12, (VNum (Qmake (0)%Z 1%positive))); (13, (VBool true)); (14, (VNum (Qmake (-1)%Z 1%positive))); (10, (VStruct [(12, (VNum (Qmake (-1)%Z 1%positive))); (13, (VBool false))]))]); (VStruct [(4, (VNum (Qmake (0)%Z 1%positive))); (5, (VBool false)); (6, (VNum (Qmake (0)%Z 1%positive))); (7, (VStr 28)); (12, (VNum (Qmake (0)%Z 1%positive))); (13, (VBool false)); (14, (VNum (Qmake (0)%Z 1%positive))); (10, (VStruct [(12, (VNum (Qmake (0)%Z 1%positive))); (13, (VBool false))]))])]; rc_imm := [false; false; true; false; false; false; false; false; false; false; false; false; false; false; false; false; false; false; false; false; false; false; false]; rc_script := [(AFinish 0); AStart; (AFinish 0); (AFinish 1); (AFinish 3); (AFinish 4); (AFinish 3); (AFinish 5); (AFinish 6); (AFinish 4); (AFinish 7); (AFinish 8); AJunk; (AFinish 9); (AFinish 10); (AFinish 7)]; rc_react := []; rc_react_all := false; rc_mutate := 0; rc_test_ids := true |}.
 
 Definition ex_body : list xstmt :=
   match unfold_program (p_tasks (rc_prog ex_case)) 200 with Ok b => b | _ => [] end.
